@@ -18,7 +18,8 @@
 (*                                                                         *)
 (* An attempt is described by d = [kind, pv, basis, inp, fault]:           *)
 (*   kind   form | renew | refreshFull | refreshPartial                    *)
-(*   pv     parameter validity: ok, or where it is rejected (PVClass)      *)
+(*   pv     parameter validity: ok, or where it is rejected (PVClass);     *)
+(*          includes "the existing contract is not confirmed yet" (noelem) *)
 (*   basis  relation of the renter's chain to the host's: same tip, renter *)
 (*          behind, renter on a stale fork the host has seen (fork) or     *)
 (*          has not (forkx)                                                *)
@@ -66,7 +67,10 @@ PVClass(pv) == CASE pv = "ok"    -> "ok"
                  [] pv = "rfund" -> "rfund"    \* the renter cannot fund it: fails before anything is sent
                  [] pv = "hfund" -> "hfund"    \* the host cannot fund it
                  [] OTHER        -> "hval"     \* rejected by the host's validation, before it funds
-PVApplies(k, pv) == /\ (pv = "chal"  => Renewing(k))
+\* "noelem": the renter targets its existing contract before the transaction that created it is
+\* confirmed -- the host has recorded the contract but has no chain element for it yet; the handler
+\* gives up at the element lookup, which (like validation) comes before it funds anything
+PVApplies(k, pv) == /\ (pv \in {"chal", "noelem"} => Renewing(k))
                     /\ (pv = "proof" => k \in {"form", "renew"})
 \* with rejected parameters the exchange ends before m2: later fault points cannot be reached
 EarlyFaults == {"none", "dial", "cutB1", "cutA1", "cutB2", "cutA2", "m1basis", "m1value"}
